@@ -377,8 +377,12 @@ impl DgramLoad {
                 return false;
             }
             let mtu = w.conns[inc as usize].conn.current_mtu() as usize;
-            if m + 1 + 16 + 1 > mtu {
-                w.violate("max-size-exceeds-packet", format!("inc{} max_size() = {} cannot fit a packet on a path with MTU estimate {}", inc, m, mtu));
+            // the smallest packet that can carry it: flags, the peer's connection ID, one byte of
+            // packet number, the frame type (no length: last frame), the payload, the AEAD tag
+            let peer = w.conns[inc as usize].peer;
+            let dcid = if peer != crate::tap::NO_INC && (peer as usize) < w.conns.len() { w.nodes[w.conns[peer as usize].node as usize].cid_len } else { 0 };
+            if m + 1 + dcid + 1 + 1 + 16 > mtu {
+                w.violate("max-size-exceeds-packet", format!("inc{} max_size() = {} cannot fit a packet on a path with MTU estimate {} (the peer's connection IDs are {} bytes long)", inc, m, mtu, dcid));
                 return false;
             }
         }
